@@ -19,7 +19,7 @@ ASSUMPTIONS = ['labels are bench identifiers: non-empty ASCII words over [A-Za-z
 TRUSTED = ['search oracle: Circuit.__eq__ on the implementation (gates as maps with operand order, inputs, '
            'outputs) and denotation comparison through the real evaluator (certified in C01)']
 
-IDENT_POOLS = ['plain', 'keyword', 'digits']
+IDENT_POOLS = ['plain', 'keyword', 'digits', 'punct']
 
 
 def py_format(j):
